@@ -262,6 +262,18 @@ Fixpoint enc_prog (s : state) (os : list op) : list Z * Z :=
 Definition enc_run (s : state) (os : list op) : list Z :=
   let '(l, k) := enc_prog s os in k :: l.
 
+(* interactive transcript (kind "inter" of the harness): number of refusals, largest leak, final flag *)
+Fixpoint enc_inter_from (s : state) (es : list event) (n k : Z) : list Z :=
+  match es with
+  | [] => [n; k; enc_bool (protected s)]
+  | e :: r =>
+      let x := estep s e in
+      enc_inter_from (st x) r
+        (match rs_ x with Err e => if e =? E_IFC then n + 1 else n | _ => n end)
+        (Z.max k (leak_class (ob x)))
+  end.
+Definition enc_inter (s : state) (es : list event) : list Z := enc_inter_from s es 0 0.
+
 (* the files of the harness: P = the protected file, Q = the same program saved unprotected, U = another file *)
 Definition secret_code : list Z := [1; 2; 3; 4; 10; 11; 12; 13; 14].
 Definition secret_code_nostx : list Z := [2; 3; 4; 10; 11; 12; 13; 14].
